@@ -165,6 +165,19 @@ register('C10',
          'Coq proof (induction over the statement list with a newest-row invariant) + vm_compute replay of recorded traces + twin run',
          'DESIGN.md §7 C10')
 
+register('C07',
+         'Coq theorems: the application tables of the model are a function of the event trace alone - versioning on/off, strategy and '
+         'plugins make no difference (C07_application_tables_independent_of_versioning); the package never raises an error of its own '
+         'on its version tables in any reachable state; with versioning off nothing is written. That the REAL code behaves identically '
+         'with and without versioning is established by the twin run: every generated history (general, link histories incl. '
+         'link+unlink of one pair in one transaction, raw Core statements on the association table with bound and inline values, '
+         'autoflush) is executed with make_versioned and on an identical unversioned model set and per-operation outcomes and final '
+         'application tables are compared; after remove_versioning() further work must add no versioning row and leave no listener.',
+         COMMON_NOTE + 'Partial: the data-transparency equation is structural in the model; its content for the code comes from the twin '
+         'run (sampling). Partially loaded polymorphic / deferred objects are not in the generated shapes yet.',
+         'Coq proof (simulation between configurations; machine invariant) + twin-run differential testing + vm_compute replay',
+         'DESIGN.md §7 C07')
+
 ALL = ['C%02d' % i for i in range(1, 21)]
 
 
